@@ -91,6 +91,7 @@ def source_digest(repo, flavour):
         os.path.join(HERE, "hwc_shim.cpp"),
         os.path.join(HERE, "gomp_forkjoin.cpp"),
         os.path.join(HERE, "kernel_driver.cpp"),
+        os.path.join(HERE, "jax_bwd_unit.cpp"),
         os.path.abspath(__file__),
     ]:
         if os.path.exists(f):
@@ -171,14 +172,17 @@ def build_driver(repo, flavour):
         return exe
     os.makedirs(out, exist_ok=True)
     log = os.path.join(out, "build.log")
-    cmd = ["g++", "-std=c++17", "-w", "-g", "-O1", "-fopenmp", "-pthread"]
+    # -ffunction-sections/--gc-sections: jax_bwd_unit.cpp includes pybind11 headers whose (unused)
+    # inline helpers reference the Python C API; their sections are discarded at link time
+    cmd = ["g++", "-std=c++17", "-w", "-g", "-O1", "-fopenmp", "-pthread", "-ffunction-sections", "-fdata-sections", "-Wl,--gc-sections"]
     if flavour == "tsan":
         cmd += ["-fsanitize=thread", "-fno-omit-frame-pointer"]
     elif flavour == "asan":
         cmd += ["-fsanitize=address,undefined", "-fsanitize-recover=all", "-fno-omit-frame-pointer"]
-    cmd += ["-I", os.path.join(repo, "src")]
+    cmd += ["-I", os.path.join(repo, "src"), "-isystem", PYINC, "-isystem", PB11, "-isystem", JAXINC]
     cmd += [
         os.path.join(HERE, "kernel_driver.cpp"),
+        os.path.join(HERE, "jax_bwd_unit.cpp"),
         os.path.join(repo, "src/permanent.cpp"),
         os.path.join(repo, "src/permanent_laplace.cpp"),
         os.path.join(HERE, "hwc_shim.cpp"),
